@@ -229,3 +229,20 @@ def swap_contract(l, r):
     return TD(l + r, r + l)
 
 
+
+
+def seg_pattern(seq, atom_map):
+    """describe a sequence as a list of (lo, hi) bounds over one underlying atom"""
+    pat = []
+    for p in seq.parts:
+        if isinstance(p, Seg):
+            pat.append((p.lo, p.hi))
+        elif isinstance(p, Item) and id(p.value) in atom_map:
+            pat.append(atom_map[id(p.value)])
+        elif isinstance(p, Item) and isinstance(p.value, Lin) and p.value in atom_map:
+            pat.append(atom_map[p.value])
+        else:
+            pat.append(("?", repr(p)))
+    return pat
+
+
